@@ -82,6 +82,11 @@ func ratFloat(a, b float64, k, m int64) float64 {
 // and its 8 neighbours one ulp away in x and/or y: near-collinear triples whose coordinate
 // differences are not representable (different binary exponents, opposite signs).
 func c10FloatLines(c *engine.Ctx, m int64) {
+	sweepFloatLines(c, m, func(a, b, p [2]float64) { c10Lean(c, "float_line_triples", a, b, p) })
+}
+
+// sweepFloatLines enumerates the float-line lattice and hands every triple to emit (in parallel).
+func sweepFloatLines(c *engine.Ctx, m int64, emit func(a, b, p [2]float64)) {
 	q := [][2]float64{{-7.3, 5.1}, {9.2, -6.4}, {0.7, 0.3}, {-0.7, -0.55}, {3.3, -9.9}, {-5.05, -4.95}, {12.345, 6.789},
 		{1234.5678, -987.654}, {-1500.1, 1600.2}, {0.1, 0.2}, {100.1, 200.2}, {-0.013, 0.017}, {15.9, 16.1}, {-1023.9, -1024.1}, {6.02214076, -1.602176634}, {0.5000000001, 0.4999999999}}
 	type pair struct{ a, b [2]float64 }
@@ -103,7 +108,7 @@ func c10FloatLines(c *engine.Ctx, m int64) {
 			px, py := ratFloat(a[0], b[0], k, m), ratFloat(a[1], b[1], k, m)
 			for dx := -1; dx <= 1; dx++ {
 				for dy := -1; dy <= 1; dy++ {
-					c10Lean(c, "float_line_triples", a, b, [2]float64{ulps(px, dx), ulps(py, dy)})
+					emit(a, b, [2]float64{ulps(px, dx), ulps(py, dy)})
 				}
 			}
 		}
@@ -145,16 +150,21 @@ func mixedCollinearMany(nDirs, nT int) [][6]float64 {
 // c10MixedSweep: every triple of mixedCollinearMany exactly collinear, and with each ordinate one
 // and two ulps off (one ordinate at a time), in all six argument orders.
 func c10MixedSweep(c *engine.Ctx, nDirs, nT int) {
+	sweepMixed(c, nDirs, nT, func(a, b, p [2]float64) { c10Lean(c, "mixed_many_triples", a, b, p) })
+}
+
+// sweepMixed enumerates the mixed-magnitude collinear triples and their perturbations.
+func sweepMixed(c *engine.Ctx, nDirs, nT int, emit func(a, b, p [2]float64)) {
 	ts := mixedCollinearMany(nDirs, nT)
 	c.Note("mixed_collinear_many", len(ts))
 	c.Parallel(len(ts), func(i int) {
 		t := ts[i]
-		c10Lean(c, "mixed_many_triples", [2]float64{t[0], t[1]}, [2]float64{t[2], t[3]}, [2]float64{t[4], t[5]})
+		emit([2]float64{t[0], t[1]}, [2]float64{t[2], t[3]}, [2]float64{t[4], t[5]})
 		for k := 0; k < 6; k++ {
 			for _, d := range []int{-2, -1, 1, 2} {
 				w := t
 				w[k] = ulps(w[k], d)
-				c10Lean(c, "mixed_many_triples", [2]float64{w[0], w[1]}, [2]float64{w[2], w[3]}, [2]float64{w[4], w[5]})
+				emit([2]float64{w[0], w[1]}, [2]float64{w[2], w[3]}, [2]float64{w[4], w[5]})
 			}
 		}
 	})
@@ -238,6 +248,11 @@ func c10BigIntegers(c *engine.Ctx) {
 // nearest to the line at `steps` parameters in a window around the closest approach to the
 // origin, with their 8 one-ulp neighbours, in all six argument orders.
 func c10ThroughOrigin(c *engine.Ctx, steps int) {
+	sweepThroughOrigin(c, steps, func(a, b, p [2]float64) { c10Lean(c, "through_origin_triples", a, b, p) })
+}
+
+// sweepThroughOrigin enumerates the through-the-origin family.
+func sweepThroughOrigin(c *engine.Ctx, steps int, emit func(a, b, p [2]float64)) {
 	as := [][2]float64{{5.797367, 4.572201}, {1.509239, 1.167890}, {10.633283, 5.977051}, {2.242590, 4.658419}, {1.425465, 9.908858}, {2.529804, 1.458376}, {5.361697, 1.692275}, {0.513737, 40107.36}, {-3.3, 7.7}, {12.7, -0.9}}
 	type pair struct{ a, b [2]float64 }
 	var pairs []pair
@@ -264,7 +279,7 @@ func c10ThroughOrigin(c *engine.Ctx, steps int) {
 			px, py := ratFloat(a[0], b[0], k, den), ratFloat(a[1], b[1], k, den)
 			for ux := -1; ux <= 1; ux++ {
 				for uy := -1; uy <= 1; uy++ {
-					c10Lean(c, "through_origin_triples", a, b, [2]float64{ulps(px, ux), ulps(py, uy)})
+					emit(a, b, [2]float64{ulps(px, ux), ulps(py, uy)})
 				}
 			}
 		}
